@@ -80,6 +80,13 @@ pub struct RegisteredClaims {
 #[cfg(feature = "claims")]
 pub use claims_impls::{ForAudience, ForSubject, FromIssuer, HasExpiry, Time, TimeWithLeeway};
 
+/// Simulated clock seam (verification builds only).
+#[cfg(all(paseto_verif, feature = "claims"))]
+fn verif_now() -> Option<jiff::Timestamp> {
+    let (s, ns) = paseto_core::verif::now()?;
+    jiff::Timestamp::new(s, ns).ok()
+}
+
 #[cfg(feature = "claims")]
 mod claims_impls {
     use core::fmt;
@@ -103,6 +110,10 @@ mod claims_impls {
 
     impl Time {
         pub fn valid_now() -> Self {
+            #[cfg(paseto_verif)]
+            if let Some(now) = super::verif_now() {
+                return Self { now };
+            }
             Self {
                 now: jiff::Timestamp::now(),
             }
@@ -233,6 +244,10 @@ mod claims_impls {
         }
 
         pub fn now(exp: Duration) -> Self {
+            #[cfg(paseto_verif)]
+            if let Some(now) = super::verif_now() {
+                return Self::new(now, exp);
+            }
             Self::new(jiff::Timestamp::now(), exp)
         }
 
